@@ -89,6 +89,7 @@ def worker(case):
         for ww in c.wires:
             exp |= cls_of[hw(path, ww)]
         ask(s.get_hwires, HRef.from_sequence(list(path) + [c]), "get_hwires(hcable,ALL)", exp, selection=ALL)
+        ask(s.get_hcables, HRef.from_sequence(list(path) + [c]), "get_hcables(hcable,ALL)", set(x[:-1] for x in exp), selection=ALL)
     # hierarchical pins and ports
     for path in e.instances:
         inst = path[-1]
@@ -117,6 +118,7 @@ def worker(case):
                 ask(s.get_hcables, href, "get_hcables(hpin,ALL):" + side, set(x[:-1] for x in allexp), selection=ALL)
                 pexp |= allexp
             ask(s.get_hwires, HRef.from_sequence(list(path) + [port]), "get_hwires(hport,ALL)", pexp, selection=ALL)
+            ask(s.get_hcables, HRef.from_sequence(list(path) + [port]), "get_hcables(hport,ALL)", set(x[:-1] for x in pexp), selection=ALL)
     return {"key": key, "nontrivial": spans, "outcome": "ok", "problems": probs, "transitions": nq}
 
 
